@@ -16,6 +16,7 @@
 // Definitions evaluated directly (recorded finding: ValueEID::unknownError) come only from `definitionCases`
 // and are judged under their own op names `c01 judge-defn` / `c02 sound-defn`.
 #include "common.hpp"
+#include <functional>
 #include "ast_wire.hpp"
 #include "ccl/rslang/Interpreter.h"
 #include "ccl/rslang/TypeAuditor.h"
@@ -548,6 +549,32 @@ struct Gen {
     Scope in = sc; in.mult *= maxCard(it);
     std::vector<EP> blocks;
     auto dom = genSet(it, sc, d - 1, T::ITERATE);
+    if (rng.chance(1, 4) && in.mult * maxCard(it) <= 4000) {
+      // chained form: x :∈ S ; s := <set depending on x> ; y :∈ s  - the domain of the second loop changes
+      // with every pass of the first one although it mentions no loop variable itself
+      auto x = declFor(it, in, false);
+      blocks.push_back(mk(T::ITERATE, { x, dom }));
+      const auto single = mk(T::NT_ENUMERATION, { x });
+      EP dep;
+      switch (rng.range(0, 3)) {
+      default:
+      case 0: dep = mk(T::SET_MINUS, { dom, single }); break;
+      case 1: dep = single; break;
+      case 2: dep = mk(T::UNION, { single, single }); break;
+      case 3: dep = mk(T::INTERSECTION, { dom, single }); break;
+      }
+      const auto sName = fresh(in);
+      in.vars.push_back({ sName, tS(it) });
+      blocks.push_back(mk(T::ASSIGN, { mkName(T::ID_LOCAL, sName), dep }));
+      if (rng.chance(1, 3)) { auto g = genLogic(in, d - 1); if (g->id != T::ITERATE && g->id != T::ASSIGN) blocks.push_back(g); }
+      in.mult *= maxCard(it);
+      auto y = declFor(it, in);
+      blocks.push_back(mk(T::ITERATE, { y, mkName(T::ID_LOCAL, sName) }));
+      if (!elemSource(el, in)) return nullptr;
+      auto value = gen(el, in, d - 1, T::NT_IMPERATIVE_EXPR);
+      std::vector<EP> ks{ value }; ks.insert(ks.end(), blocks.begin(), blocks.end());
+      return mk(T::NT_IMPERATIVE_EXPR, ks);
+    }
     auto decl = declFor(it, in);
     blocks.push_back(mk(T::ITERATE, { decl, dom }));
     const int extra = rng.range(0, 2);
@@ -660,6 +687,51 @@ struct Gen {
     }
     if (auto c = call(nullptr, sc, d)) return c;
     return genLogic(sc, 0);
+  }
+
+  // near-miss for C02: `Q (a,b),c ∈ S  body`, the body written for `b` but spelled with `c` (c really ranges over
+  // the whole tuple). A sound checker rejects it unless the two types happen to agree; an accepted one is evaluated.
+  static void renameLocal(const EP& e, const std::string& from, const std::string& to) {
+    if (e->id == T::ID_LOCAL && e->kids.empty() && e->name == from) e->name = to;
+    for (auto& k : e->kids) renameLocal(k, from, to);
+  }
+  static bool mentions(const EP& e, const std::string& n) {
+    if (e->id == T::ID_LOCAL && e->kids.empty() && e->name == n) return true;
+    for (auto& k : e->kids) if (mentions(k, n)) return true;
+    return false;
+  }
+  EP enumConfusion(Scope& sc, int d) {
+    const TyP t1 = randTy(rng.range(0, 1));
+    const TyP t2 = rng.chance(2, 3) ? tS(randTy(0)) : randTy(1);
+    const TyP tup = rng.chance(1, 3) ? tT({ t1, t1, t2 }) : tT({ t1, t2 });
+    const double cost = maxCard(tup) * maxCard(tup);
+    if (sc.mult * cost > 4000) return nullptr;
+    auto dom = genSet(tup, sc, d - 1, T::FORALL);
+    Scope in = sc; in.mult *= cost;
+    std::vector<EP> pat;
+    std::string bName;
+    for (size_t i = 0; i < tup->cs.size(); ++i) {
+      const auto n = fresh(in);
+      in.vars.push_back({ n, tup->cs[i] });
+      pat.push_back(mkName(T::ID_LOCAL, n));
+      bName = n;
+    }
+    EP body;
+    for (int tries = 0; tries < 6; ++tries) { body = genLogic(in, std::max(1, d - 1)); if (mentions(body, bName)) break; }
+    if (!body || !mentions(body, bName)) {
+      // make the last component matter: card / equality on it
+      body = mk(T::EQUAL, { mkName(T::ID_LOCAL, bName), mkName(T::ID_LOCAL, bName) });
+    }
+    const auto cName = fresh(in);
+    auto copy = std::make_shared<E>(*body);
+    std::function<EP(const EP&)> clone = [&](const EP& x) { auto c = std::make_shared<E>(*x); for (auto& k : c->kids) k = clone(k); return c; };
+    auto b2 = clone(body);
+    renameLocal(b2, bName, cName);
+    const bool patternFirst = rng.chance(3, 4);
+    std::vector<EP> ds;
+    if (patternFirst) { ds.push_back(mk(T::NT_TUPLE_DECL, pat)); ds.push_back(mkName(T::ID_LOCAL, cName)); }
+    else { ds.push_back(mkName(T::ID_LOCAL, cName)); ds.push_back(mk(T::NT_TUPLE_DECL, pat)); }
+    return mk(rng.chance(1, 2) ? T::FORALL : T::EXISTS, { mk(T::NT_ENUM_DECL, ds), dom, b2 });
   }
 };
 
@@ -910,7 +982,20 @@ static EP mutate(vh::Rng& rng, const EP& e) {
   auto c = cloneTree(e);
   std::vector<EP> nodes; collectNodes(c, nodes);
   auto& n = nodes[rng.below(static_cast<uint32_t>(nodes.size()))];
-  switch (rng.range(0, 5)) {
+  switch (rng.range(0, 7)) {
+  case 6:
+  case 7: {
+    // variable confusion: one occurrence of a bound variable is replaced by another variable of the expression
+    // (usually of another type): a sound checker rejects it unless the types happen to agree
+    std::vector<EP> locals;
+    for (auto& x : nodes) if (x->id == T::ID_LOCAL && x->kids.empty()) locals.push_back(x);
+    if (locals.size() >= 2) {
+      auto& a = locals[rng.below(static_cast<uint32_t>(locals.size()))];
+      auto& b = locals[rng.below(static_cast<uint32_t>(locals.size()))];
+      if (a->name != b->name) a->name = b->name;
+    }
+    break;
+  }
   case 0: if (n->kids.size() >= 2 && n->id != T::NT_FUNC_CALL && n->id != T::FORALL && n->id != T::EXISTS && n->id != T::NT_DECLARATIVE_EXPR &&
               n->id != T::NT_IMPERATIVE_EXPR && n->id != T::NT_RECURSIVE_FULL && n->id != T::NT_RECURSIVE_SHORT && n->id != T::ITERATE && n->id != T::ASSIGN)
             std::swap(n->kids[0], n->kids[1]);
@@ -964,6 +1049,22 @@ static void corpusCases(vh::Rng& rng) {
     auto callB = mk(T::NT_FUNC_CALL, { mkName(T::ID_FUNCTION, "F1"), mk(T::NT_ENUMERATION, { L("__var2") }) });
     runCase(cx, mk(T::NT_DECLARATIVE_EXPR, { L("__var1"), G("X1"), mk(T::EXISTS, { L("__var2"), G("X1"),
       mk(T::AND, { mk(T::EQUAL, { callA, mk(T::NT_ENUMERATION, { L("__var1") }) }), mk(T::EQUAL, { mk(T::UNION, { callA, callB }), mk(T::NT_ENUMERATION, { L("__var1"), L("__var2") }) }) }) }) }), "corpus.inline-capture", true);
+  }
+  // a pattern variable of an enumerated declaration has the name of a variable bound inside the (copied) domain
+  {
+    auto rec = [&] { return mk(T::NT_RECURSIVE_FULL, { L("d"), x1x1(), mk(T::LESSER, { mk(T::CARD, { L("d") }), mkInt(1) }), mk(T::UNION, { L("d"), x1x1() }) }); };
+    runCase(cx, mk(T::EXISTS, { mk(T::NT_ENUM_DECL, { mk(T::NT_TUPLE_DECL, { L("d"), L("a") }), L("b") }), rec(), mk(T::EQUAL, { L("b"), L("b") }) }), "corpus.enum-pattern-domain-copy", false);
+    runCase(cx, mk(T::FORALL, { mk(T::NT_ENUM_DECL, { mk(T::NT_TUPLE_DECL, { L("d"), L("a") }), L("b") }), rec(), mk(T::EQUAL, { mk(T::NT_TUPLE, { L("d"), L("a") }), L("b") }) }), "corpus.enum-pattern-domain-copy", false);
+    auto decl = [&] { return mk(T::NT_DECLARATIVE_EXPR, { L("a"), x1x1(), mk(T::EQUAL, { L("a"), L("a") }) }); };
+    runCase(cx, mk(T::EXISTS, { mk(T::NT_ENUM_DECL, { mk(T::NT_TUPLE_DECL, { L("a"), L("c") }), L("b") }), decl(), mk(T::EQUAL, { L("b"), mk(T::NT_TUPLE, { L("a"), L("c") }) }) }), "corpus.enum-pattern-domain-copy", false);
+  }
+  // a recursion whose step is typed by the any-type must still have the type of its initial value
+  // (∀x∈R{a:=X1 | 1=2 | ∅} pr1(x)=x was accepted with x : R0 and crashed)
+  {
+    auto rec = mk(T::NT_RECURSIVE_FULL, { L("a"), G("X1"), mk(T::EQUAL, { mkInt(1), mkInt(2) }), mk(T::LIT_EMPTYSET) });
+    runCase(cx, rec, "corpus.recursion-init-type", false);
+    auto pr = mk(T::SMALLPR, { L("x") }); pr->idx = { 1 };
+    runCase(cx, mk(T::FORALL, { L("x"), rec, mk(T::EQUAL, { pr, L("x") }) }), "corpus.recursion-init-type", false);
   }
   // finding 21: int32 overflow
   runCase(cx, mk(T::PLUS, { mkInt(2147483647), mkInt(1) }), "corpus.int-overflow", false);
@@ -1104,8 +1205,9 @@ int main(int argc, char** argv) {
       else if (r < 80) { e = g.genSet(g.randTy(2), sc, d, T::INTERRUPT); cls = "set"; }
       else if (r < 90) { e = g.genInt(sc, d, T::INTERRUPT); cls = "int"; }
       else { TyP t = g.randTy(2); if (!g.elemSource(t, sc)) t = tS(t); e = g.gen(t, sc, d, T::INTERRUPT); cls = "any"; }
+      if (gC02 && rng.chance(1, 8)) { if (auto c = g.enumConfusion(sc, d)) { e = c; cls = "confusion"; } }
       if (e->id == T::LIT_EMPTYSET) continue;           // a lone ∅ crashes the type checker (C03/C04 finding)
-      if (rng.chance(1, 10)) { e = mutate(rng, e); cls = "mutant"; }
+      if (rng.chance(gC02 ? 3 : 1, 10)) { e = mutate(rng, e); cls = "mutant"; }
       if (rng.chance(1, 10)) { e = mk(T::PUNC_DEFINE, { G("D9"), e }); cls += "+define"; }
       if (wild) cls += "+wild";
       runCase(cx, e, cls, rng.chance(1, 3));
